@@ -447,11 +447,19 @@ func (ch c13) runCase(c *core.Ctx, env *hs.Env, k c13case, rng *core.Rng, idx in
 // messages interleaved with Flush/Sync, then the terminator, lock-step.
 func (ch c13) runRows(c *core.Ctx, env *hs.Env, rng *core.Rng, idx int) {
 	t := c14gen(rng, true)
-	if rng.Intn(3) == 0 {
+	switch rng.Intn(6) {
+	case 0, 1:
 		// no file header: the stream starts with the first row (tiny streams included: one row of one NULL
 		// is 6 bytes, shorter than the signature a reader looks for)
 		t.NoHeader = true
 		c.Count("row_reader_streams_without_header", 1)
+	case 2:
+		// low (non-critical) bits of the header's flags field set
+		t.Flags = core.Pick(rng, []uint32{1, 0x100, 0x8000, 0xffff, uint32(rng.Intn(1 << 16))})
+		c.Count("row_reader_streams_with_header_flags", 1)
+	case 3:
+		t.Ext = rng.Bytes(1 + rng.Intn(24))
+		c.Count("row_reader_streams_with_header_extension", 1)
 	}
 	stream, _ := t.encode()
 	if len(stream) == 0 {
